@@ -66,7 +66,7 @@ def setTail : Datum → Datum → Datum
 mutual
 /-- `current_datum`: reads the datum that starts at `s.cur` -/
 def currentDatum : Nat → PState → Except SErr (Option Datum × PState)
-  | 0, _ => .error (.panic "reader fuel", none)
+  | 0, _ => .error (.fuel, none)
   | fuel + 1, s =>
     match s.cur with
     | none => .ok (none, s)
@@ -91,7 +91,7 @@ def listOrPair (fuel : Nat) (s : PState) : Except SErr (Datum × PState) :=
   listLoop fuel s s.loc (.nil none) false
 
 def listLoop : Nat → PState → Loc → Datum → Bool → Except SErr (Datum × PState)
-  | 0, _, _, _, _ => .error (.panic "reader fuel", none)
+  | 0, _, _, _, _ => .error (.fuel, none)
   | fuel + 1, s, listLoc, acc, dot => do
     let (t, s) ← advanceUnwrap s
     match t.tok with
@@ -115,7 +115,7 @@ def listLoop : Nat → PState → Loc → Datum → Bool → Except SErr (Datum 
 
 /-- `repeat(Self::datum)`: elements up to the closing parenthesis -/
 def repeatDatum : Nat → PState → List Datum → Except SErr (List Datum × PState)
-  | 0, _, _ => .error (.panic "reader fuel", none)
+  | 0, _, _ => .error (.fuel, none)
   | fuel + 1, s, acc => do
     match ← peek s with
     | none => .error (.syntax, s.loc)
@@ -130,7 +130,7 @@ def repeatDatum : Nat → PState → List Datum → Except SErr (List Datum × P
 
 /-- `datum`: the restricted reader used after a quote and inside vectors -/
 def datum : Nat → PState → Except SErr (Datum × PState)
-  | 0, _ => .error (.panic "reader fuel", none)
+  | 0, _ => .error (.fuel, none)
   | fuel + 1, s =>
     let location := s.loc
     match s.cur with
@@ -150,7 +150,7 @@ def datum : Nat → PState → Except SErr (Datum × PState)
 
 /-- `parse_quoted` -/
 def parseQuoted : Nat → PState → Except SErr (Datum × PState)
-  | 0, _ => .error (.panic "reader fuel", none)
+  | 0, _ => .error (.fuel, none)
   | fuel + 1, s => do
     let quoteLoc := s.loc
     let (inner, s) ← datum fuel s
